@@ -122,6 +122,26 @@ def run(ctx):
             if v != c["text"]:
                 cases.append(dict(c, text=v, pre=[c["text"]]))
                 cases.append(dict(c, pre=[v]))
+        # enumerations: three to eight date pieces in a row, separated by one of the marks at which the library cuts a
+        # chunk that does not parse as a whole (Latin and Arabic comma, dashes, full stop), for every language
+        MARKS = [",", "\u060c", "\u2014\u2014", "\u2014", "\u2013", "."]
+        for L in (order if not ctx.quick() else rng.sample(order, 70) + ["ar", "fa", "en", "ru", "zh"]):
+            w = W["langs"][L]
+            ms = [m for m in w["months"] if m]
+            wd = [x for x in w["weekdays"] if x]
+            if not ms:
+                continue
+            for mark in (MARKS * 3 if not ctx.quick() else MARKS[1:5] + [rng.choice(MARKS), "\u060c"]):
+                n = rng.randint(3, 8)
+                items = []
+                for k in range(n):
+                    r = rng.random()
+                    dm = "%d %s" % (rng.randint(1, 28), rng.choice(ms))
+                    items.append(rng.choice(wd) if (r < 0.35 and wd) else (dm if r < 0.75 else ("%s %s" % (rng.choice(wd), dm) if wd else dm + " 2020")))
+                body = (mark + rng.choice([" ", " ", ""])).join(items)
+                t = rng.choice(["", rng.choice(FILLER) + ": ", rng.choice(FILLER) + " "]) + body + rng.choice(["", ".", " " + rng.choice(FILLER), mark])
+                cases.append({"text": t[:300], "languages": rng.choice([[L], [L], None]), "settings": rng.choice([None, {"RELATIVE_BASE": [2020, 1, 1, 0, 0, 0, 0]}]),
+                              "withlang": rng.random() < 0.5})
         for _ in range(1500 if ctx.quick() else 20000):      # autodetection and multi-language lists
             L = rng.choice(order)
             langs = None if rng.random() < 0.6 else rng.sample(order, rng.randint(2, 3))
